@@ -667,6 +667,12 @@ def emit_cpp(scn):
     H = hier_of(scn['classes'])
     custom = POLICIES[scn['policy']][3]
     c15 = scn['kind'] == 'c15'
+    # const_pointee: every pointer, reference and smart pointer in the program is to const (virtual_ptr<const T>,
+    # shared_ptr<const T>, make_virtual_shared<const T>, virtual_<const T&>); objects themselves stay non-const
+    Q = 'const ' if scn['flags'].get('const_pointee') else ''
+
+    def KQ(i):
+        return Q + K(scn, i)
     out = [PRELUDE % {'name': scn['name'], 'kind': scn['kind']}]
     w = out.append
     if custom:
@@ -692,15 +698,15 @@ def emit_cpp(scn):
     w('')
 
     def sig(m, ver):
-        r0 = K(scn, m['roots'][0])
+        r0 = KQ(m['roots'][0])
         first = {'m': 'VP<%s>', 's': 'VSP<%s>', 'r': 'virtual_<%s&>', 'rp': 'virtual_<%s*>', 'rs': 'virtual_<std::shared_ptr<%s>>',
                  'rc': 'virtual_<const std::shared_ptr<%s>&>'}[ver] % r0
-        return first + (', virtual_<%s&>' % K(scn, m['roots'][1]) if len(m['roots']) == 2 else '')
+        return first + (', virtual_<%s&>' % KQ(m['roots'][1]) if len(m['roots']) == 2 else '')
 
     def dparams(m, d, ver):
-        d0 = K(scn, d['classes'][0])
+        d0 = KQ(d['classes'][0])
         first = {'m': 'VP<%s>', 's': 'VSP<%s>', 'r': '%s&', 'rp': '%s*', 'rs': 'std::shared_ptr<%s>', 'rc': 'const std::shared_ptr<%s>&'}[ver] % d0
-        return first + ' a' + (', %s& b' % K(scn, d['classes'][1]) if len(d['classes']) == 2 else '')
+        return first + ' a' + (', %s& b' % KQ(d['classes'][1]) if len(d['classes']) == 2 else '')
 
     def versions(m):
         return ['m', 's', 'r'] + (['rp', 'rs', 'rc'] if c15 and len(m['roots']) == 1 else [])
@@ -741,19 +747,19 @@ def emit_cpp(scn):
 
     def as_ptr(o, S):
         """the S subobject of complete object o, by the language's own conversion"""
-        return 'static_cast<%s*>(%s)' % (K(scn, S), ('%s.get()' % o['name']) if o['smart'] else ('&%s' % o['name']))
+        return 'static_cast<%s*>(%s)' % (KQ(S), ('%s.get()' % o['name']) if o['smart'] else ('&%s' % o['name']))
 
     def as_ref(o, S):
-        return 'static_cast<%s&>(%s)' % (K(scn, S), ('*%s' % o['name']) if o['smart'] else o['name'])
+        return 'static_cast<%s&>(%s)' % (KQ(S), ('*%s' % o['name']) if o['smart'] else o['name'])
 
     def set_fields(o):
         C = o['cls']
         for A in sorted(ancestors(H, C) | {C}):
-            w('    %s.f%d = %d;' % (as_ref(o, A), A, o['id'] * 100 + A))
+            w('    const_cast<%s&>(%s).f%d = %d;' % (K(scn, A), as_ref(o, A), A, o['id'] * 100 + A))
 
     def make_stmts(route, name, o, S, src, label=None):
         """C++ statements creating pointer `name` by `route`; helper names derive from `name`"""
-        KS = K(scn, S)
+        KS = KQ(S)
         L = []
         if route == 'exact':
             L.append('VP<%s> %s(%s);' % (KS, name, o['name']))
@@ -838,7 +844,7 @@ def emit_cpp(scn):
                 continue
             KC = K(scn, op['cls'])
             if op['smart']:
-                w('    std::shared_ptr<%s> %s = std::make_shared<%s>();' % (KC, op['name'], KC))
+                w('    std::shared_ptr<%s%s> %s = std::make_shared<%s>();' % (Q, KC, op['name'], KC))
             else:
                 w('    static %s %s;' % (KC, op['name']))
             set_fields(op)
@@ -851,7 +857,7 @@ def emit_cpp(scn):
             if route == 's_make':
                 w('    ' + stm[0])
                 w('    long uc_%s = %s.get().use_count() - 1;' % (name, name))
-                w('    std::shared_ptr<%s> %s = %s.get();' % (K(scn, o['cls']), o['name'], name))
+                w('    std::shared_ptr<%s> %s = %s.get();' % (KQ(o['cls']), o['name'], name))
                 set_fields(o)
             elif smart:
                 for s in stm[:-1]:
